@@ -25,7 +25,8 @@ struct C17 : vr::Driver {
     // dims: shape(2) pop(4) outcome(4) pre(4) plugin silence(3) always_continue(2) dry(2) kernelkill(2)
     //       history(4: none / new process before tick 3 / a nested descendant cgroup disappears right after the first signal /
     //       a nested descendant's cgroup.procs cannot be opened (EMFILE) from the first signal on)
-    mx.dims = {2, 4, 4, kNPre, plugins.size(), 3, 2, 2, 2, 4};
+    //       prekill hook(2: none / pending for one tick per invocation: the accounted kill is a resumed one)
+    mx.dims = {2, 4, 4, kNPre, plugins.size(), 3, 2, 2, 2, 4, 2};
   }
   size_t count() override { return mx.total(); }
   size_t chunk() override { return 16; }
@@ -83,6 +84,12 @@ struct C17 : vr::Driver {
           world::syncProcs();
         }
       };
+    }
+    if (d[10]) {
+      s.hooksJson = "{\"name\":\"verif_hook\",\"args\":{\"id\":\"h\",\"cgroup\":\"/\"}}";
+      s.hookTimeout = 30;
+      s.hookDecide = [](const std::string&, long, int polls) { return polls >= 1; };
+      s.ticks += 2;
     }
     if (d[9] == 3 && d[0] == 1) {
       s.afterKill = [](int, int) {
@@ -200,7 +207,10 @@ struct C17 : vr::Driver {
         if (c.id == "after") afterRan = true;
       }
       if (kret >= 0) {
-        bool sampling = s.plugin == "kill_by_pg_scan" && kret == 2;
+        // ASYNC_PAUSED is legitimate while kill_by_pg_scan takes its first sample and while a prekill hook is pending
+        bool hookPending = false;
+        for (auto& h : o.hooks) hookPending |= h.tick == t && h.kind == "poll" && !h.finished;
+        bool sampling = kret == 2 && (s.plugin == "kill_by_pg_scan" || hookPending);
         if (!sampling) {
           int wantRet = (successes > 0 && !ac) ? 1 : 0;
           if (kret != wantRet)
